@@ -160,7 +160,7 @@ inductive HostOp
 
 /-- which path call -/
 inductive PathCall
-  | createDirectory | removeDirectory | unlinkFile | readlink (bufLen : Nat) | filestatGet
+  | createDirectory | removeDirectory | unlinkFile | readlink (bufLen : Nat) | filestatGet (lookupFlags : Nat)
   deriving DecidableEq, Repr
 
 def PathCall.hostOp : PathCall → Bytes → HostOp
@@ -168,7 +168,7 @@ def PathCall.hostOp : PathCall → Bytes → HostOp
   | .removeDirectory, p => .rmdir p
   | .unlinkFile, p => .unlink p
   | .readlink n, p => .readlink p n
-  | .filestatGet, p => if Gen.WasiPath.filestatHostCall == "stat" then .stat p else .lstat p   -- the regenerated host call
+  | .filestatGet fl, p => if Gen.WasiPath.filestatHostCallFor fl == "stat" then .stat p else .lstat p   -- the regenerated decision
 
 /-- A descriptor-table slot as far as the path calls look at it: `path` (`none` = NULL). -/
 abbrev FdTable := List (Option Bytes)
